@@ -186,7 +186,10 @@ def run(run_, ctx):
     # struct the form serde's Serialize uses (incl. zero-field tuple/struct forms), else "under the type's schema" differs from the static bytes
     import c14
     c14.check_corpus(run_, ctx, rule="DC")
-    run_.floor("DC", 29)
+    run_.floor("DC", 34)
+    # ... and for the built-in impls the hand-written constant: "the type's schema" of a std type is what postcard-schema declares for it
+    c14.check_builtins(run_, F, "A", rule="DB")
+    run_.floor("DB", 58)
     finish(run_, F, helpers, dc)
 
 
